@@ -48,12 +48,23 @@ pub enum CanonError {
     /// Generic decode error with detail.
     #[error("decode error: {0}")]
     Decode(String),
+    /// Arrays/maps nested deeper than [`MAX_DECODE_NESTING_DEPTH`].
+    #[error("nesting depth limit exceeded")]
+    NestingLimitExceeded,
     /// Generic encode error with detail.
     #[error("encode error: {0}")]
     Encode(String),
 }
 
 type Result<T> = result::Result<T, CanonError>;
+
+/// Maximum container nesting depth accepted by [`decode_value`].
+///
+/// The root value is at depth zero. A scalar wrapped in exactly this many
+/// arrays/maps is accepted; one additional container is rejected with
+/// [`CanonError::NestingLimitExceeded`] instead of recursing without bound on
+/// untrusted input.
+pub const MAX_DECODE_NESTING_DEPTH: usize = 128;
 
 /// Encode a `ciborium::value::Value` to deterministic CBOR bytes.
 pub fn encode_value(val: &Value) -> Result<Vec<u8>> {
@@ -65,7 +76,11 @@ pub fn encode_value(val: &Value) -> Result<Vec<u8>> {
 /// Decode deterministic CBOR bytes into a `ciborium::value::Value`.
 pub fn decode_value(bytes: &[u8]) -> Result<Value> {
     let mut idx = 0usize;
-    let v = dec_value(bytes, &mut idx)?;
+    // Every array element and map entry occupies at least one input byte, so the
+    // capacity pre-reserved over one whole decode never needs to exceed the
+    // input length; declared lengths only draw on this budget.
+    let mut reserve = bytes.len();
+    let v = dec_value(bytes, &mut idx, 0, &mut reserve)?;
     if idx != bytes.len() {
         return Err(CanonError::Trailing);
     }
@@ -218,7 +233,15 @@ fn write_major(major: u8, n: u128, out: &mut Vec<u8>) {
     }
 }
 
-fn dec_value(bytes: &[u8], idx: &mut usize) -> Result<Value> {
+/// Capacity to pre-reserve for a container declaring `len` elements: the
+/// declared length, capped by (and charged to) the remaining reserve budget.
+fn take_reserve(len: usize, reserve: &mut usize) -> usize {
+    let cap = core::cmp::min(len, *reserve);
+    *reserve -= cap;
+    cap
+}
+
+fn dec_value(bytes: &[u8], idx: &mut usize, depth: usize, reserve: &mut usize) -> Result<Value> {
     fn need(bytes: &[u8], idx: usize, n: usize) -> Result<()> {
         if bytes.len().saturating_sub(idx) < n {
             Err(CanonError::Incomplete)
@@ -318,19 +341,25 @@ fn dec_value(bytes: &[u8], idx: &mut usize) -> Result<Value> {
         }
         4 => {
             let len = read_len(bytes, idx, info)? as usize;
-            let mut items = Vec::with_capacity(len);
+            if depth >= MAX_DECODE_NESTING_DEPTH {
+                return Err(CanonError::NestingLimitExceeded);
+            }
+            let mut items = Vec::with_capacity(take_reserve(len, reserve));
             for _ in 0..len {
-                items.push(dec_value(bytes, idx)?);
+                items.push(dec_value(bytes, idx, depth + 1, reserve)?);
             }
             Ok(Value::Array(items))
         }
         5 => {
             let len = read_len(bytes, idx, info)? as usize;
-            let mut entries = Vec::with_capacity(len);
+            if depth >= MAX_DECODE_NESTING_DEPTH {
+                return Err(CanonError::NestingLimitExceeded);
+            }
+            let mut entries = Vec::with_capacity(take_reserve(len, reserve));
             let mut last_key: Option<Vec<u8>> = None;
             for _ in 0..len {
                 let key_start = *idx;
-                let k = dec_value(bytes, idx)?;
+                let k = dec_value(bytes, idx, depth + 1, reserve)?;
                 let key_end = *idx;
                 let kb = &bytes[key_start..key_end];
                 if let Some(prev) = &last_key {
@@ -341,7 +370,7 @@ fn dec_value(bytes: &[u8], idx: &mut usize) -> Result<Value> {
                     }
                 }
                 last_key = Some(kb.to_vec());
-                let v = dec_value(bytes, idx)?;
+                let v = dec_value(bytes, idx, depth + 1, reserve)?;
                 entries.push((k, v));
             }
             Ok(Value::Map(entries))
